@@ -21,8 +21,8 @@ type (
 
 func NewCond(l Locker) *Cond { return sync.NewCond(l) }
 
-func OnceFunc(f func()) func()                  { return sync.OnceFunc(f) }
-func OnceValue[T any](f func() T) func() T      { return sync.OnceValue(f) }
+func OnceFunc(f func()) func()                                 { return sync.OnceFunc(f) }
+func OnceValue[T any](f func() T) func() T                     { return sync.OnceValue(f) }
 func OnceValues[T1, T2 any](f func() (T1, T2)) func() (T1, T2) { return sync.OnceValues(f) }
 
 type Mutex struct {
@@ -80,8 +80,8 @@ func (m *RWMutex) RUnlock() {
 	m.mu.RUnlock()
 }
 
-func (m *RWMutex) TryLock() bool  { simrt.Yield("rwmutex.TryLock"); return m.mu.TryLock() }
-func (m *RWMutex) TryRLock() bool { simrt.Yield("rwmutex.TryRLock"); return m.mu.TryRLock() }
+func (m *RWMutex) TryLock() bool   { simrt.Yield("rwmutex.TryLock"); return m.mu.TryLock() }
+func (m *RWMutex) TryRLock() bool  { simrt.Yield("rwmutex.TryRLock"); return m.mu.TryRLock() }
 func (m *RWMutex) RLocker() Locker { return (*rlocker)(m) }
 
 type rlocker RWMutex
